@@ -51,8 +51,15 @@ class LoggedProblem:
                 self.exc = exc
 
             def Calculate(self, point, functionValue):
-                caller = sys._getframe(1).f_code.co_name
-                phase = "global" if caller == "Calculate" else ("local" if caller == "problemCalculate" else "other")
+                fr = sys._getframe(1).f_code
+                caller, cfile = fr.co_name, fr.co_filename.replace("\\", "/")
+                # a call made from the output system (a painter probing the objective to draw it) or from outside the library is
+                # not a trial of the search; the search evaluates through OptimizationTask.Calculate (global phase) and
+                # Process.problemCalculate (local refinement)
+                if "/output_system/" in cfile or "/iOpt/" not in cfile:
+                    phase = "other"
+                else:
+                    phase = "global" if caller == "Calculate" else ("local" if caller == "problemCalculate" else "other")
                 pt = tuple(float(v) for v in point.floatVariables)
                 if phase == "global":
                     self.ncalls_global += 1
@@ -63,7 +70,10 @@ class LoggedProblem:
                 if fresh_holder:
                     functionValue = FunctionValue(functionValue.type, functionValue.functionID)
                 functionValue.value = v
-                self.log.append((phase, pt, v, id(functionValue)))
+                if phase == "other" and not getattr(self, "keep_other", True):
+                    self.probes = getattr(self, "probes", 0) + 1     # a painter's probe: counted, not a trial
+                else:
+                    self.log.append((phase, pt, v, id(functionValue)))
                 return functionValue
         return P()
 
